@@ -1002,6 +1002,103 @@ impl Family for MixedRows {
     }
 }
 
+/// One binary resultset of very many rows (beyond 2^12, 2^13, 2^16): the first row long, the rest
+/// short, NULL patterns and values moving with the row number - for per-resultset row counters and
+/// "every K-th row" maintenance of the row buffer. Every row is decoded and compared.
+struct ManyRows {
+    ns: Vec<usize>,
+}
+impl Family for ManyRows {
+    fn name(&self) -> String {
+        "very-many-rows-in-one-binary-resultset".into()
+    }
+    fn len(&self) -> u64 {
+        self.ns.len() as u64 * 2
+    }
+    fn max_threads(&self) -> Option<usize> {
+        Some(8)
+    }
+    fn run(&self, idx: u64, st: &mut Stats) -> Result<(), Violation> {
+        let n = self.ns[(idx / 2) as usize];
+        let wide = idx % 2 == 1;
+        st.nontrivial += 1;
+        st.bump("many_rows");
+        let ncols = if wide { 10 } else { 3 };
+        let cols: Arc<Vec<Column>> = Arc::new(
+            (0..ncols)
+                .map(|i| col(&format!("c{}", i), if i % 3 == 1 { ColumnType::MYSQL_TYPE_VAR_STRING } else { ColumnType::MYSQL_TYPE_LONG }, ColumnFlags::empty()))
+                .collect(),
+        );
+        let row = |r: usize| -> Vec<Val> {
+            (0..ncols)
+                .map(|i| {
+                    if (r + i) % 5 == 0 && r > 0 {
+                        Val::Null
+                    } else if i % 3 == 1 {
+                        Val::Str(if r == 0 { "L".repeat(300) } else { format!("r{}", r % 1000) })
+                    } else {
+                        Val::I32((r * 7 + i) as i32)
+                    }
+                })
+                .collect()
+        };
+        let mut prog = vec![WOp::Start(cols.clone())];
+        for r in 0..n {
+            if r % 2 == 0 {
+                prog.push(WOp::WriteRow(row(r)));
+            } else {
+                for v in row(r) {
+                    prog.push(WOp::WriteCol(v));
+                }
+                prog.push(WOp::EndRow);
+            }
+        }
+        prog.push(WOp::Finish);
+        let conv = Conv::new(vec![ClientCmd::new(with_byte(COM_STMT_PREPARE, b"id=1 p=0")), ClientCmd::new(cmd_execute(1, 0, 1, &[])), ping()]);
+        let s = conv.stream();
+        let stream = Arc::new(s.bytes);
+        let mut sim = sim_for(&stream, vec![]);
+        sim.log_ops = false;
+        let prog = Arc::new(prog);
+        let behave = Box::new(move |_: usize, cb: &Cb| match cb {
+            Cb::Prepare(_) => Behavior::PrepReply { id: 1, params: param_cols(0), cols: param_cols(0) },
+            Cb::Execute { .. } => Behavior::Prog(prog.clone()),
+            _ => Behavior::Silent,
+        });
+        let o = run_conn(sim, ConnCfg::new(behave));
+        st.transitions += n as u64;
+        let what = format!("{} rows of {} columns", n, ncols);
+        if let ConnResult::Panic(l, m) = &o.res {
+            return Err(Violation::new(panic_key(l, m), format!("{}: run_on panicked at {}: {}", what, l, m)));
+        }
+        if !o.res.is_ok() {
+            return Err(Violation::new("result-not-ok", format!("{}: run_on returned {}", what, o.res.short())));
+        }
+        let d = decode_all(delivered(&o), &conv, &s.last_seq, 3, false).map_err(|e| Violation::new("row-undecodable", format!("{}: {}", what, e)))?;
+        match &d.replies[1][..] {
+            [Unit::ResultSet { rows, end: Ok(_), .. }] if rows.len() == n => {
+                for (r, got) in rows.iter().enumerate() {
+                    for (i, v) in row(r).iter().enumerate() {
+                        let (ty, uns) = (cols[i].coltype as u8, false);
+                        let ok = match expected_cell(v, ty, uns) {
+                            None => got[i] == Cell::Null,
+                            Some(b) => same_cell(&got[i], &Cell::Bin(b)),
+                        };
+                        if !ok {
+                            return Err(Violation::new("cell-differs-in-a-long-resultset", format!("{}: row {} column {}: wrote {}, the client decodes {:?}", what, r, i, val_short(v), got[i])));
+                        }
+                    }
+                }
+                Ok(())
+            }
+            other => Err(Violation::new("rows-missing", format!("{}: the reply has {} unit(s){}", what, other.len(), match other.first() { Some(Unit::ResultSet { rows, .. }) => format!(", {} rows", rows.len()), _ => String::new() }))),
+        }
+    }
+    fn describe(&self, idx: u64) -> J {
+        json!({"rows": self.ns[(idx / 2) as usize], "columns": if idx % 2 == 1 { 10 } else { 3 }})
+    }
+}
+
 pub fn build(quick: bool) -> Check {
     let mut ns: Vec<usize> = (13..=70).collect();
     ns.extend([127, 128, 129, 255, 256, 257, 300, 511, 512, 513, 1000]);
@@ -1011,12 +1108,12 @@ pub fn build(quick: bool) -> Check {
     Check {
         id: "C07",
         level: "model_checking",
-        rule: format!("binary resultsets through the real run_on, decoded from the advertised column definitions by refwire and cell by cell by mysql_common's BinValue: column counts 1..{} x all 2^n NULL patterns (three rows: pattern, complement, pattern) with 12 cycling column types of different widths; column counts up to 1000 with structured patterns (none, all, every single NULL / non-NULL, alternations, prefixes/suffixes ending around every multiple of 8); NULL into NOT NULL for all patterns of <= 6 columns x 4 flag placements; the matrix of {} value sources x all 31 column types x signedness x NOT NULL; at the to_mysql_bin seam every second of 0..838:59:59 x 3 microsecond values as TIME, every calendar date of years 0..9999 as DATE, every second of a day x 3 microsecond values as DATETIME, 22 microsecond values of every decimal shape at midnight and other times and at day boundaries of TIME; a refused cell (NULL into NOT NULL, wrong type, out of range, invalid generic date/time) at each column followed by a replacement value; rows built partly by write_col and partly by write_row over columns of different width and signedness, every split point, with values that fit a neighbouring column but not their own. Oracle: decoded cells equal the written values, bitmap bits = NULL cells exactly, natural pairings accepted, anything accepted is exact, mismatches refused without emitting undecodable output. Values in context: every sequence of <= 3 (thorough: 4) events on one connection (rows of other shapes incl. all-NULL / alternating NULLs / 300- and 70000-byte cells, a refused cell, a new resultset behind finish_one with the same or other columns, behind a completion, behind a zero-column set, a new command in the same or the other protocol, finish_error) followed by a probe row of characteristic values for nine column types; every row of the conversation must decode cell for cell to what was written. Non-trivial = bitmap crosses a byte boundary or a type pairing the unit tests never make.", if quick {12} else {14}, value_palette().len()),
+        rule: format!("binary resultsets through the real run_on, decoded from the advertised column definitions by refwire and cell by cell by mysql_common's BinValue: column counts 1..{} x all 2^n NULL patterns (three rows: pattern, complement, pattern) with 12 cycling column types of different widths; column counts up to 1000 with structured patterns (none, all, every single NULL / non-NULL, alternations, prefixes/suffixes ending around every multiple of 8); NULL into NOT NULL for all patterns of <= 6 columns x 4 flag placements; the matrix of {} value sources x all 31 column types x signedness x NOT NULL; at the to_mysql_bin seam every second of 0..838:59:59 x 3 microsecond values as TIME, every calendar date of years 0..9999 as DATE, every second of a day x 3 microsecond values as DATETIME, 22 microsecond values of every decimal shape at midnight and other times and at day boundaries of TIME; a refused cell (NULL into NOT NULL, wrong type, out of range, invalid generic date/time) at each column followed by a replacement value; rows built partly by write_col and partly by write_row over columns of different width and signedness, every split point, with values that fit a neighbouring column but not their own. Oracle: decoded cells equal the written values, bitmap bits = NULL cells exactly, natural pairings accepted, anything accepted is exact, mismatches refused without emitting undecodable output. Very many rows: one binary resultset of 4097 / 8193 / 16385 / 65537 (thorough: up to 300000) rows of 3 and 10 columns, first row long, NULLs and values moving with the row number, every row compared. Values in context: every sequence of <= 3 (thorough: 4) events on one connection (rows of other shapes incl. all-NULL / alternating NULLs / 300- and 70000-byte cells, a refused cell, a new resultset behind finish_one with the same or other columns, behind a completion, behind a zero-column set, a new command in the same or the other protocol, finish_error) followed by a probe row of characteristic values for nine column types; every row of the conversation must decode cell for cell to what was written. Non-trivial = bitmap crosses a byte boundary or a type pairing the unit tests never make.", if quick {12} else {14}, value_palette().len()),
         assumptions: vec!["integer range rules are C15's; here an accepted integer must be exact".into()],
         bounds: json!({"exhaustive_null_patterns_up_to_columns": if quick {12} else {14}, "max_columns": 1000}),
         exhaustive: true,
         caps_hit: vec![],
-        families: vec![Box::new(AllPatterns { max_n: if quick { 12 } else { 14 } }), Box::new(Structured { ns }), Box::new(NotNull), Box::new(TypeMatrix { vals: value_palette() }), Box::new(TemporalBin), Box::new(Recover), Box::new(MixedRows), Box::new(super::aftermath::Aftermath { prop: "C07" }), Box::new(super::context::ContextWalks { prop: "C07", depth: 1, start_bin: true }), Box::new(super::context::ContextWalks { prop: "C07", depth: 2, start_bin: true }), Box::new(super::context::ContextWalks { prop: "C07", depth: 3, start_bin: true }), Box::new(super::context::ContextWalks { prop: "C07", depth: if quick { 0 } else { 4 }, start_bin: true })],
-        required: vec!["context_walks", "mixed_rows", "mixed_rows_trap_refused", "aftermath_recovered", "bitmaps_crossing_a_byte", "structured_patterns", "null_into_not_null", "matrix_refused", "matrix_accepted", "binary_durations", "binary_dates", "binary_times_of_day", "recoveries"],
+        families: vec![Box::new(AllPatterns { max_n: if quick { 12 } else { 14 } }), Box::new(Structured { ns }), Box::new(NotNull), Box::new(TypeMatrix { vals: value_palette() }), Box::new(TemporalBin), Box::new(Recover), Box::new(MixedRows), Box::new(super::aftermath::Aftermath { prop: "C07" }), Box::new(ManyRows { ns: if quick { vec![4097, 8193, 16385, 65537] } else { vec![255, 257, 4095, 4097, 8193, 16385, 32769, 65535, 65537, 131073, 300000] } }), Box::new(super::context::ContextWalks { prop: "C07", depth: 1, start_bin: true }), Box::new(super::context::ContextWalks { prop: "C07", depth: 2, start_bin: true }), Box::new(super::context::ContextWalks { prop: "C07", depth: 3, start_bin: true }), Box::new(super::context::ContextWalks { prop: "C07", depth: if quick { 0 } else { 4 }, start_bin: true })],
+        required: vec!["many_rows", "context_walks", "mixed_rows", "mixed_rows_trap_refused", "aftermath_recovered", "bitmaps_crossing_a_byte", "structured_patterns", "null_into_not_null", "matrix_refused", "matrix_accepted", "binary_durations", "binary_dates", "binary_times_of_day", "recoveries"],
     }
 }
